@@ -47,23 +47,23 @@ Definition built (ops : list zop) : graph znode :=
 Local Open Scope Z_scope.
 
 (* ---------- the instrumented nodes of the harness are an instance ---------- *)
-Definition zkey (w : znode) : Z * Z := (ident w, kind w * count w).
-Definition zf (k : Z * Z) (ins : list zbuf) : zbuf :=
-  (((fst k + 1) * 7 + 1000 * snd k + GraphRun.wsum 1 ins) mod 65521, fst k).
+Definition zkey (w : znode) : Z * Z * nat := (ident w, kind w * count w, nbufs w).
+Definition zf (k : Z * Z * nat) (ins : list zbuf) : zbuf :=
+  repeat (((fst (fst k) + 1) * 7 + 1000 * snd (fst k) + GraphRun.wsum 1 ins) mod 65521, fst (fst k)) (snd k).
 
 Example znodes_pure : pure_nodes zbufs znproc zkey zf.
 Proof.
-  intros w i. unfold zbufs, znproc, zkey, zf; cbn [fst snd ident kind count val].
-  apply f_equal2; [|reflexivity]. apply (f_equal (fun x => x mod 65521)). ring.
+  intros w i. unfold zbufs, znproc, zkey, zf; cbn [fst snd ident kind count val nbufs].
+  f_equal. apply f_equal2; [|reflexivity]. apply (f_equal (fun x => x mod 65521)). ring.
 Qed.
 
 (* every graph a script reaches satisfies the hypothesis of the theorems *)
 Lemma zstep_wf g p o g' p' obs : wf g -> zstep (g, p) o = Ok ((g', p'), obs) -> wf g'.
 Proof.
-  intros Hwf. destruct o as [k|a b|a|o| |]; cbn [zstep].
+  intros Hwf. destruct o as [k b|a b|a|o| |]; cbn [zstep].
   - destruct (add_node _ g) as [g1 i] eqn:Ha. intros H.
     apply (f_equal (fun r => match r with Ok x => fst (fst x) | _ => g end)) in H. cbn [fst] in H. subst g'.
-    pose proof (wf_add_node g {| ident := 0; kind := k; count := 0; val := 0 |} Hwf) as H1.
+    pose proof (wf_add_node g {| ident := 0; kind := k; count := 0; val := 0; nbufs := n b |} Hwf) as H1.
     rewrite Ha in H1. cbn [fst] in H1.
     now apply wf_set_weight_any.
   - destruct (add_edge _ _ g) as [g1| |] eqn:Ha; cbn [bind]; try discriminate.
@@ -80,7 +80,7 @@ Proof.
 Qed.
 
 (* ---------- a diamond: 0 -> 1 -> 3, 0 -> 2 -> 3 ---------- *)
-Definition diamond := built [ZN 0; ZN 0; ZN 0; ZN 0; ZE 0 1; ZE 0 2; ZE 1 3; ZE 2 3].
+Definition diamond := built [ZN 0 1; ZN 0 1; ZN 0 1; ZN 0 1; ZE 0 1; ZE 0 2; ZE 1 3; ZE 2 3].
 
 Example diamond_wf : wf diamond.
 Proof. apply wfb_wf. vm_compute. reflexivity. Qed.
@@ -104,7 +104,7 @@ Example diamond_run :
 Proof. vm_compute. repeat split; reflexivity. Qed.
 
 (* ---------- a cycle 0 -> 1 -> 2 -> 0 with a doubled edge 0 -> 1 and a self-loop on 1 ---------- *)
-Definition cyclic := built [ZN 0; ZN 1; ZN 0; ZE 0 1; ZE 1 2; ZE 2 0; ZE 1 1; ZE 0 1].
+Definition cyclic := built [ZN 0 1; ZN 1 1; ZN 0 1; ZE 0 1; ZE 1 2; ZE 2 0; ZE 1 1; ZE 0 1].
 
 Example cyclic_wf : wf cyclic.
 Proof. apply wfb_wf. vm_compute. reflexivity. Qed.
@@ -124,13 +124,13 @@ Example cyclic_run :
   | Ok (_, g', log) =>
     map (@who zbuf) log = [2; 0; 1]%nat /\
     map (@from zbuf) log = [[1]; [2]; [0; 0]]%nat /\
-    map (fun i => map fst (seen i)) log = [[50001]; [18982]; [56953; 56953]]
+    map (fun i => map bsum (seen i)) log = [[50001]; [18982]; [56953; 56953]]
   | _ => False
   end.
 Proof. vm_compute. repeat split; reflexivity. Qed.
 
 (* ---------- a stable graph with a vacancy: slot 0 removed, 1 -> 2 -> 3 remain ---------- *)
-Definition holed := built [ZN 0; ZN 0; ZN 0; ZN 0; ZE 0 1; ZE 1 2; ZE 2 3; ZE 3 0; ZR 0].
+Definition holed := built [ZN 0 1; ZN 0 1; ZN 0 1; ZN 0 1; ZE 0 1; ZE 1 2; ZE 2 3; ZE 3 0; ZR 0].
 
 Example holed_wf : wf holed.
 Proof. apply wfb_wf. vm_compute. reflexivity. Qed.
@@ -152,6 +152,31 @@ Example holed_no_node :
   process zbufs znproc new_processor holed 9 = Panic PAssert /\
   process zbufs znproc {| dfs := st_empty; cap := 20 |} holed 9 = Panic PExpect.
 Proof. vm_compute. auto. Qed.
+
+(* ---------- nodes without buffers (meters): 0 -> 1 -> 2 and 0 -> 2, node 1 has no buffers,
+   node 0 has two ---------- *)
+Definition metered := built [ZN 0 2; ZN 0 0; ZN 0 1; ZE 0 1; ZE 1 2; ZE 0 2].
+
+Example metered_wf : wf metered.
+Proof. apply wfb_wf. vm_compute. reflexivity. Qed.
+Example metered_no_buffers : option_map zbufs (weight metered 1) = Some [].
+Proof. vm_compute. reflexivity. Qed.
+(* the node without buffers is invoked like any other, is presented to 2 as an input that
+   shows no buffers, and may itself be the output node *)
+Example metered_run :
+  match process zbufs znproc new_processor metered 2 with
+  | Ok (_, g', log) =>
+    map (@who zbuf) log = [0; 1; 2]%nat /\
+    map (@from zbuf) log = [[]; [0]; [0; 1]]%nat /\
+    map (fun i => map (@length _) (seen i)) log = [[]; [2]; [2; 0]]%nat /\
+    option_map count (weight g' 1%nat) = Some 1
+  | _ => False
+  end /\
+  match process zbufs znproc new_processor metered 1 with
+  | Ok (_, _, log) => map (@who zbuf) log = [0; 1]%nat
+  | _ => False
+  end.
+Proof. vm_compute. repeat split; reflexivity. Qed.
 
 (* ---------- reuse: a processor left in an arbitrary state behaves like a new one ---------- *)
 Example reuse_dirty :
